@@ -111,13 +111,16 @@ try:
             C.judge("signed-non-canonical-order", pol(1), xml=ksrxml.render_ksr(request([keys], doc_order)))
         # single-field tamperings of signed fields
         si = R.randrange(nk)
-        for field, fn in [("ottl", lambda s: s["ottl"] + 1), ("labels", lambda s: 1), ("labels", lambda s: 128),
+        for field, fn in [("ottl", lambda s: s["ottl"] + 1), ("ottl", lambda s: 0), ("ottl", lambda s: s["ttl"] + 7), ("labels", lambda s: 1), ("labels", lambda s: 128),
                           ("exp", lambda s: s["exp"] + D(seconds=1)), ("inc", lambda s: s["inc"] - D(seconds=1)),
                           ("tag", lambda s: (s["tag"] + 1) % 65536), ("alg", lambda s: 10 if s["alg"] == 8 else (8 if s["alg"] == 10 else (14 if s["alg"] == 13 else 13)))]:
             r2 = clone(req)
             s = r2["bundles"][0]["sigs"][si]
             s[field] = fn(s)
             C.judge("tamper-signed-field-" + field, pol(1), xml=ksrxml.render_ksr(r2), desc={"field": field})
+        # a proof of possession honestly made with Original TTL 0 (a legal TTL) next to a non-zero <TTL>: what was signed is what is stated
+        zreq = request([keys], sigmaker=lambda ks_, k, inc, exp: ksrxml.mk_sig(k, ks_, inc, exp, ottl=0, ttl=k["ttl"]))
+        C.judge("original-ttl-zero-honest", pol(1), xml=ksrxml.render_ksr(zreq), desc={"original_ttl": 0, "ttl": keys[0]["ttl"]})
         # fields that are not part of the signed data: still accepted
         r2 = clone(req); r2["bundles"][0]["sigs"][si]["ttl"] += 7
         C.judge("unsigned-field-sig-ttl", pol(1), xml=ksrxml.render_ksr(r2))
